@@ -37,6 +37,10 @@ type ProgOpts struct {
 	Prelude      string // evaluated once in every fresh interpreter (type declarations etc.)
 	GatePrelude  string // same declarations for the native package (default = Prelude)
 	Workers      int
+	Book         bool // events carry the executor bookkeeping suffix
+	// After, if set, runs after each case in the same interpreter (battery, snapshots);
+	// a non-empty return value is a disagreement to confirm and report.
+	After func(g *gm.Interp, pc *ProgCase) string
 }
 
 func describeDiff(want, got []string, wantRes, gotRes string) string {
@@ -46,7 +50,7 @@ func describeDiff(want, got []string, wantRes, gotRes string) string {
 		n = len(got)
 	}
 	i := 0
-	for i < n && want[i] == got[i] {
+	for i < n && eventEq(want[i], got[i]) {
 		i++
 	}
 	if i < len(want) || i < len(got) {
@@ -65,6 +69,19 @@ func describeDiff(want, got []string, wantRes, gotRes string) string {
 	return b.String()
 }
 
+// stripBook removes the bookkeeping suffix (" |isdef:.. depth:..") that only the interpreter
+// side can observe.
+func stripBook(ev []string) []string {
+	out := make([]string, len(ev))
+	for i, e := range ev {
+		if k := strings.Index(e, " |"); k >= 0 {
+			e = e[:k]
+		}
+		out[i] = e
+	}
+	return out
+}
+
 func progConforms(pc *ProgCase, events []string, result string) bool {
 	if pc.Admissible != nil {
 		return pc.Admissible(events, result)
@@ -73,11 +90,25 @@ func progConforms(pc *ProgCase, events []string, result string) bool {
 		return false
 	}
 	for i := range events {
-		if events[i] != pc.WantEvents[i] {
+		if !eventEq(pc.WantEvents[i], events[i]) {
 			return false
 		}
 	}
 	return true
+}
+
+// eventEq compares an expected with an observed event; an expected "depth:0" means the
+// specification does not predict the call depth at that point.
+func eventEq(want, got string) bool {
+	if want == got {
+		return true
+	}
+	if strings.HasSuffix(want, " depth:0") {
+		if k := strings.LastIndex(got, " depth:"); k >= 0 {
+			return want[:len(want)-len(" depth:0")] == got[:k]
+		}
+	}
+	return false
 }
 
 // runOnGomacro evaluates one case in interpreter g.
@@ -96,6 +127,7 @@ func runOnGomacro(g *gm.Interp, pc *ProgCase) (events []string, result string) {
 
 func newProgInterp(o *ProgOpts) *gm.Interp {
 	g := gm.New()
+	g.Book = o.Book
 	for _, im := range []string{"errors", "fmt"} {
 		g.Eval(fmt.Sprintf("import %q", im))
 	}
@@ -138,7 +170,9 @@ func RunProgCases(c *core.Ctx, cases []*ProgCase, o ProgOpts) error {
 		}
 		shown := 0
 		for k, i := range idx {
-			ok := outs[k].CompileError == "" && progConforms(cases[i], outs[k].Events, outs[k].Result)
+			gc := *cases[i]
+			gc.WantEvents = stripBook(gc.WantEvents)
+			ok := outs[k].CompileError == "" && progConforms(&gc, outs[k].Events, outs[k].Result)
 			c.Gate(ok)
 			if !ok {
 				dropped[i] = true
